@@ -272,6 +272,12 @@ def judge(plan, O, out, forced, stopped_at=None):
         elif t_last is not None and t_last > limit + 1e-9 * max(1.0, abs(limit)):
             out["violations"].append(violation("unconverged_step_returned", sig, f"step {k} (t={t_fail}) did not converge, yet the returned solution ends at t={t_last}"))
             return "violation"
+    elif t_last is not None and t_last > stopped_at + 1e-9 * max(1.0, abs(stopped_at)):
+        # the back end integrated up to stopped_at only: anything later was never computed
+        out["violations"].append(
+            violation("unconverged_step_returned", sig, f"the back end stopped at t={stopped_at}, yet the returned solution has {nt} instants and ends at t={t_last} (nothing beyond the stop time was integrated)")
+        )
+        return "violation"
     solver_warnings = [w for w in after if not w[2].startswith("fsolve is not converged")]
     cands = [t_last, t_fail, t_prev]
     steps_ok = {k, k - 1} if k is not None else set()
